@@ -11,15 +11,26 @@ static inline size_t vmutex_depth(Mutex* m) { return m ? (size_t)m->handle : 0; 
 #ifdef MUTEX_MODEL_IMPL
 Mutex::Mutex() { handle = 0; isValid = true; }
 Mutex::~Mutex() {}
-bool Mutex::lock() { handle = (CK_VOID_PTR)((size_t)handle + 1); return true; }
+static Mutex vmutex_pool[8]; static size_t vmutex_next; static unsigned long vmutex_locks[8];   // acquisitions per pool mutex (ghost)
+bool Mutex::lock() { handle = (CK_VOID_PTR)((size_t)handle + 1); 
+#define VM_CNT(i) if (this == &vmutex_pool[i]) vmutex_locks[i]++;
+	VM_CNT(0) VM_CNT(1) VM_CNT(2) VM_CNT(3) VM_CNT(4) VM_CNT(5) VM_CNT(6) VM_CNT(7)      /* (no loop: obligations with small unwinding bounds use this model) */
+#undef VM_CNT
+	return true; }
 void Mutex::unlock() { handle = (CK_VOID_PTR)((size_t)handle - 1); }
 MutexLocker::MutexLocker(Mutex* inMutex) { mutex = inMutex; if (mutex != NULL) mutex->lock(); }
 MutexLocker::~MutexLocker() { if (mutex != NULL) mutex->unlock(); }
-static Mutex vmutex_pool[8]; static size_t vmutex_next;
 static long vmutex_factory_storage[(sizeof(MutexFactory) + 7) / 8];
 MutexFactory* MutexFactory::i() { return (MutexFactory*)vmutex_factory_storage; }
 MutexFactory::~MutexFactory() {}
 Mutex* MutexFactory::getMutex() { Mutex* m = &vmutex_pool[vmutex_next & 7]; vmutex_next++; return m; }
 void MutexFactory::recycleMutex(Mutex*) {}
+static inline unsigned long vmutex_lock_count(Mutex* m)
+{
+#define VM_GET(i) if (m == &vmutex_pool[i]) return vmutex_locks[i];
+	VM_GET(0) VM_GET(1) VM_GET(2) VM_GET(3) VM_GET(4) VM_GET(5) VM_GET(6) VM_GET(7)
+#undef VM_GET
+	return 0;
+}
 #endif
 #endif
